@@ -3,13 +3,13 @@ package main
 import (
 	"fmt"
 	"go/ast"
-	"go/printer"
 	"go/parser"
+	"go/printer"
 	"go/token"
-	"path/filepath"
-	"sort"
 	"go/types"
+	"path/filepath"
 	"reflect"
+	"sort"
 	"strconv"
 	"strings"
 )
@@ -245,7 +245,7 @@ func generate() {
 	// statement trees: bodies that thread a local variable through assignments
 	out.WriteString("/-- statement tree of a Go function body made of simple statements, `if`/`else` and `return`:\n`seq s k` is the assignment / declaration `s` (source text) followed by `k`; a statement after an `if` is\ncopied into both branches. -/\ninductive SExp where\n  | seq (s : String) (k : SExp)\n  | ite (c : String) (t e : SExp)\n  | ret (e : String)\n  | fall\n  | other\n  deriving DecidableEq, Repr\n\n")
 	funcSExp("stmCloserThan", "types/addr-maybe-id.go", "AddrMaybeId", "CloserThan")
-	c14Facts() // C14: sender/Close event lists, control-flow graphs of the traversal owners (owners.go)
+	c14Facts()  // C14: sender/Close event lists, control-flow graphs of the traversal owners (owners.go)
 	lockFacts() // C01 (deadlock part): mutex acquisitions, calls and held sets of every function (locks.go)
 }
 
@@ -754,7 +754,6 @@ func funcDExp(name, rel, recv, fn string) {
 	fmt.Fprintf(&out, "/-- decision expression of `%s` in %s -/\ndef %s : DExp := %s\n\n", fn, rel, name, e)
 	defStrList(name+"Lets", dexpLets, "simple statements of `"+fn+"` skipped while reading it as a decision expression")
 }
-
 
 // Functions (file:recv.name) containing `<name>++`, non-test files of the root package.
 func incSites(name string) (sites []string) {
